@@ -143,7 +143,14 @@ def reshape_failure_cases(
                 failure_cases, index
             )
         else:
-            reshaped_failure_cases = failure_cases.unstack().reset_index()
+            # name every level: an index level that is itself named 0 would
+            # collide with the unnamed value column in reset_index()
+            reshaped_failure_cases = (
+                failure_cases.rename_axis(index="index", columns="column")
+                .unstack()
+                .rename("failure_case")
+                .reset_index()
+            )
             reshaped_failure_cases.columns = ["column", "index", "failure_case"]  # type: ignore[call-overload,assignment]  # noqa
     elif is_field(failure_cases):
         reshaped_failure_cases = failure_cases.rename("failure_case")  # type: ignore[call-overload]
